@@ -28,8 +28,14 @@ pub struct Prop {
     pub law_budget: (u64, u64),
 }
 
-fn run_laws(p: &Prop, rng: &mut Rng, thorough: bool, out: &mut Out) {
-    let budget = if thorough { p.law_budget.1 } else { p.law_budget.0 };
+/// `level`: 0 quick, 1 escalated (a quick run on sources that differ from the recorded fingerprint or whose translation
+/// no longer equals the model: more samples, bounded time), 2 thorough
+fn run_laws(p: &Prop, rng: &mut Rng, level: u8, out: &mut Out) {
+    let budget = match level {
+        0 => p.law_budget.0,
+        1 => p.law_budget.1.min(p.law_budget.0.saturating_mul(4)),
+        _ => p.law_budget.1,
+    };
     for law in (p.laws)() {
         let mut r = rng.fork(util_hash(law.name));
         let n = budget * law.weight as u64;
@@ -88,7 +94,12 @@ fn main() {
     match args[1].as_str() {
         "run" => {
             let id = &args[2];
-            let thorough = args[3] == "thorough";
+            let level: u8 = match args[3].as_str() {
+                "thorough" => 2,
+                "escalated" => 1,
+                _ => 0,
+            };
+            let thorough = level == 2;
             let seed: u64 = args[4].parse().unwrap_or(0);
             let dir = &args[5];
             let shards: usize = args.get(6).and_then(|s| s.parse().ok()).unwrap_or(16);
@@ -100,13 +111,21 @@ fn main() {
             let mut out = Out::new(id);
             let mut rng = Rng::new(seed ^ util_hash(id));
             let mut r1 = rng.fork(1);
-            (p.corr)(&mut r1, thorough, &mut out);
+            if level == 1 {
+                // escalated: four times the quick volume (fresh random streams), bounded time
+                for k in 0..4u64 {
+                    let mut rk = if k == 0 { r1.clone() } else { r1.fork(100 + k) };
+                    (p.corr)(&mut rk, false, &mut out);
+                }
+            } else {
+                (p.corr)(&mut r1, level == 2, &mut out);
+            }
             // "corr-only": just the correspondence cases (used when the same cases are re-run under another backend)
             let corr_only = args.get(7).map(|s| s == "corr-only").unwrap_or(false);
             let mut r2 = rng.fork(2);
             let mut r3 = rng.fork(3);
             if !corr_only {
-                run_laws(p, &mut r2, thorough, &mut out);
+                run_laws(p, &mut r2, level, &mut out);
                 (p.extra)(&mut r3, thorough, &mut out);
             }
             out.write(dir, shards).expect("write cases");
